@@ -135,7 +135,8 @@ void void_signal() {
 void multi_thread() {
     int nl = 1 + dsim::choose(4), nem = 1 + dsim::choose(5);
     int quota[MAXL]; for (int i = 0; i < nl; i++) quota[i] = dsim::choose(3) == 0 ? 1 + (int)dsim::choose(3) : -1;
-    dsim::plan_note("threads listeners=%d emissions=%d quotas=", nl, nem); for (int i = 0; i < nl; i++) dsim::plan_note("%d,", quota[i]);
+    bool early_drop = dsim::flip();
+    dsim::plan_note("threads listeners=%d emissions=%d early_drop=%d quotas=", nl, nem, (int)early_drop); for (int i = 0; i < nl; i++) dsim::plan_note("%d,", quota[i]);
     auto sig = std::make_unique<Sig>();
     std::vector<std::thread> th;
     for (int i = 0; i < nl; i++) th.emplace_back([&, i, em = sig->get_emitter()] {
@@ -155,9 +156,12 @@ void multi_thread() {
             if (n < want) dsim::fail("C15.missed", "listener %d known to wait since emission %ld has %ld values after emission %ld", i, known_from[i], n, v);
         }
     }
-    for (auto &t : th) t.join();
+    // the last handle may go while listeners on the other threads are still on their way into the emitter (inside await_suspend, or
+    // not there yet): each of them must still end exactly once with await_canceled_exception - woken by the dying state or refused at once
+    if (!early_drop) for (auto &t : th) t.join();
     { auto drop = std::move(col); }
     sig.reset();
+    if (early_drop) for (auto &t : th) t.join();
     for (int i = 0; i < nl; i++) {
         long n = dsim::cell_get(NLOG + i);
         for (long k = 1; k < n && k < 64; k++) if (dsim::cell_get(LOG + 64 * i + (int)k) != dsim::cell_get(LOG + 64 * i + (int)k - 1) + 1) dsim::fail("C15.missed", "listener %d received %ld after %ld: a pure re-awaiting listener must see a contiguous run", i, dsim::cell_get(LOG + 64 * i + (int)k), dsim::cell_get(LOG + 64 * i + (int)k - 1));
